@@ -120,8 +120,9 @@ class C19(Prop):
                    "beyond 2^64-2 un-waited doorbell writes (explicit hypothesis eventfdMax; at the bound a post returns "
                    "-1 although the completion is queued and delivered: post_at_overflow_still_queued)",
                    "the lock translator reduces expressions to accesses in source order (no aliasing beyond locals "
-                   "initialised from get_slot / &ring[i]; macros as clang expands them); functions outside "
-                   "async_queue.c and the two runtime files that might touch the fields directly are not scanned",
+                   "initialised from get_slot / &ring[i]; macros as clang expands them); the three structures are "
+                   "opaque (defined inside their .c files), so only the functions of those files - all of them scanned - "
+                   "can name the fields",
                    "async_runtime_wait: time-out conversion, EINTR, MAX_EVENTS clamp, socket readiness branch; "
                    "async_runtime_add/modify/remove",
                    "error paths of the constructors (calloc / pthread_create / event init failing)",
